@@ -6,6 +6,10 @@ def wiring_jobs(tier):
     return [{"name": "wiring-%s-%s" % (names[ep], "err" if f else "ok"), "func": "VerifHarness_Wiring", "params": {"endpoint": ep, "fail": f},
              "unwind": 12, "reach": ["end"]} for ep in range(4) for f in (0, 1)]
 
+def wiring_range_jobs(tier):
+    return [{"name": "wiring-range-s%d-%s" % (n, "err" if f else "ok"), "func": "VerifHarness_WiringRange", "params": {"nslices": n, "fail": f},
+             "unwind": 200, "reach": ["end"]} for n in ((1, 2) if tier == "quick" else (1, 2, 3)) for f in (0, 1)]
+
 def bmc(tier):
     jobs = [
         # fine-grained (every Lock/Unlock/Wait/Broadcast/map access is its own step): ground truth, complete for 2 threads
@@ -35,7 +39,9 @@ PROP = {
               "timeout_ms": 1800000}]  # one query per property over the whole unrolling: the thorough jobs need minutes
             + _parts.PROP["runs"]
             # part (S): lock < enqueue < unlock with one injective key in the real Query/Config/Flags/Metadata
-            + [{"pkg": "./internal/promapi", "harness": ["harness/C14/wiring.go"], "intmode": True, "jobs": wiring_jobs}],  # parts (C) cache step and (W) worker bound, see props/C14_parts.py
+            + [{"pkg": "./internal/promapi", "harness": ["harness/C14/wiring.go"], "intmode": True, "jobs": wiring_jobs},
+               # part (S) for range queries: every slice request (also the only slice of a short range) goes through the pool while the key is held
+               {"pkg": "./internal/promapi", "harness": ["harness/C14/wiring_range.go"], "intmode": True, "jobs": wiring_range_jobs}],  # parts (C) cache step and (W) worker bound, see props/C14_parts.py
     "bounds": {"parts C/W": _parts.PROP["bounds"], "threads": "2-3 (thorough 4)", "lock rounds per thread": "1 (thorough: 2 for two threads)", "keys": 2, "steps": "24 fine-grained / 12-24 fused (thorough up to 64); the bound query shows these suffice for every schedule"},
     "assumptions": ["sync.Mutex and sync.Cond behave as documented", "fused jobs: lock discipline (checked statically on the automaton)"] + _parts.PROP["assumptions"],
     "outside": ["worker pool, channels, ratelimit, real timing", "data races other than accesses to the lock's own map"],
